@@ -139,7 +139,7 @@ def getattr_order(ctx):
     ctx.check(P.has(na, "while $ns:\n    if hasattr($ns.module, $k):\n        return getattr($ns.module, $k)\n    else:\n        $ns = $ns.inherits\nraise AttributeError($k)") or P.has(na, "while $ns:\n    if hasattr($ns.module, $k):\n        return getattr($ns.module, $k)\n    $ns = $ns.inherits\nraise AttributeError($k)"), "attr-walk", db.where(na), "_NSAttr does not walk module attributes along inherits", "own module attribute, else along inherits, else AttributeError")
 
 
-@rule("C06.wiring", min_instances=7)
+@rule("C06.wiring", min_instances=7, props=["C17"])
 def wiring(ctx):
     """_inherit_from appends the parent namespace at the base end of the chain and publishes it as parent/local; next is the previous tail; the body executed is the base-most one"""
     db = ctx.db
